@@ -1,23 +1,43 @@
+// Package selftest: acceptance tests of the engine. Toy programs with seeded bugs that the
+// explorer must find at the documented minimal bound, their corrected twins that must pass
+// with the whole bounded tree explored, replay determinism and the pruning self-check.
 package selftest
 
 import (
+	"context"
 	"fmt"
+	"os"
+	"strings"
 	"testing"
-	"time"
 
+	"verif/mc/enum"
 	"verif/mc/sched"
 	"verif/mc/vatomic"
+	"verif/mc/vctx"
 	"verif/mc/vsync"
+	"verif/mc/vtime"
 )
 
-func explore(t *testing.T, name string, p, e int, body func(x *sched.Exec), outcome func(x *sched.Exec) string) *sched.Explorer {
-	ex := &sched.Explorer{MaxP: p, MaxE: e, MaxSteps: 5000, Body: body, Outcome: outcome}
-	t0 := time.Now()
-	ex.Explore()
-	d := time.Since(t0)
-	t.Logf("%s P=%d E=%d: execs=%d steps=%d deadlocks=%d panics=%d violations=%d outcomes=%v  %.0f exec/s",
-		name, p, e, ex.Stats.Execs, ex.Stats.Steps, ex.Stats.Deadlocks, ex.Stats.Panics, ex.Stats.Violations, ex.Stats.Outcomes, float64(ex.Stats.Execs)/d.Seconds())
-	return ex
+func init() { os.Unsetenv("VERIF_OUT"); os.Unsetenv("VERIF_REPLAY"); os.Unsetenv("VERIF_DEADLINE_S") }
+
+func explore(t *testing.T, name string, p, e int, nocache bool, body func(x *sched.Exec), outcome func(x *sched.Exec) string) (sched.Stats, *enum.R) {
+	r := enum.Start("T00", name)
+	st := sched.Explore(r, sched.Config{Name: name, MaxP: p, MaxE: e, MaxSteps: 5000, Body: body, Outcome: outcome, NoCache: nocache, NoLadder: true})
+	t.Logf("%s P=%d E=%d cache=%v: execs=%d steps=%d states=%d pruned=%d deadlocks=%d panics=%d violating=%d outcomes=%v keys=%v",
+		name, p, e, !nocache, st.Execs, st.Steps, st.States, st.Pruned, st.Deadlocks, st.Panics, st.Violating, st.Outcomes, r.Keys())
+	if !st.Complete {
+		t.Fatalf("%s: exploration incomplete", name)
+	}
+	return st, r
+}
+
+func has(r *enum.R, sub string) bool {
+	for _, k := range r.Keys() {
+		if strings.Contains(k, sub) {
+			return true
+		}
+	}
+	return false
 }
 
 func TestLostUpdate(t *testing.T) {
@@ -36,15 +56,76 @@ func TestLostUpdate(t *testing.T) {
 		wg.Wait()
 		final = v.Load()
 		if final != 2 {
-			x.Fail("lost update: %d", final)
+			x.Fail("lost-update", "lost update: %d", final)
 		}
 	}
 	out := func(x *sched.Exec) string { return fmt.Sprint(final) }
-	if ex := explore(t, "lostupdate", 0, 0, body, out); ex.Stats.Violations != 0 {
+	if _, r := explore(t, "lostupdate", 0, 0, false, body, out); r.Failed() != 0 {
 		t.Fatal("found with 0 preemptions?")
 	}
-	if ex := explore(t, "lostupdate", 1, 0, body, out); ex.Stats.Violations == 0 {
+	if _, r := explore(t, "lostupdate", 1, 0, false, body, out); !has(r, "lost-update") {
 		t.Fatal("not found with 1 preemption")
+	}
+	// corrected twin
+	fixed := func(x *sched.Exec) {
+		var v vatomic.Int64
+		var wg vsync.WaitGroup
+		wg.Add(2)
+		for i := 0; i < 2; i++ {
+			sched.Go(func() { defer wg.Done(); v.Add(1) })
+		}
+		wg.Wait()
+		if v.Load() != 2 {
+			x.Fail("lost-update", "lost update")
+		}
+	}
+	if _, r := explore(t, "lostupdate-fixed", 3, 0, false, fixed, nil); r.Failed() != 0 {
+		t.Fatal("false alarm on the corrected twin")
+	}
+}
+
+func TestCheckThenAct(t *testing.T) {
+	mk := func(fixed bool) func(x *sched.Exec) {
+		return func(x *sched.Exec) {
+			var mu vsync.Mutex
+			var flag vatomic.Bool
+			inits := 0
+			var wg vsync.WaitGroup
+			wg.Add(2)
+			for i := 0; i < 2; i++ {
+				sched.Go(func() {
+					defer wg.Done()
+					if fixed {
+						mu.Lock()
+						defer mu.Unlock()
+						if !flag.Load() {
+							inits++
+							flag.Store(true)
+						}
+						return
+					}
+					if !flag.Load() { // check outside the lock
+						mu.Lock()
+						inits++
+						flag.Store(true)
+						mu.Unlock()
+					}
+				})
+			}
+			wg.Wait()
+			if inits != 1 {
+				x.Fail("double-init", "initialised %d times", inits)
+			}
+		}
+	}
+	if _, r := explore(t, "cta", 0, 0, false, mk(false), nil); r.Failed() != 0 {
+		t.Fatal("found with 0 preemptions?")
+	}
+	if _, r := explore(t, "cta", 1, 0, false, mk(false), nil); !has(r, "double-init") {
+		t.Fatal("check-then-act not found with 1 preemption")
+	}
+	if _, r := explore(t, "cta-fixed", 3, 0, false, mk(true), nil); r.Failed() != 0 {
+		t.Fatal("false alarm on the corrected twin")
 	}
 }
 
@@ -57,11 +138,23 @@ func TestABBA(t *testing.T) {
 		sched.Go(func() { defer wg.Done(); b.Lock(); a.Lock(); a.Unlock(); b.Unlock() })
 		wg.Wait()
 	}
-	if ex := explore(t, "abba", 0, 0, body, nil); ex.Stats.Deadlocks != 0 {
+	if st, _ := explore(t, "abba", 0, 0, false, body, nil); st.Deadlocks != 0 {
 		t.Fatal("deadlock with 0 preemptions?")
 	}
-	if ex := explore(t, "abba", 1, 0, body, nil); ex.Stats.Deadlocks == 0 {
+	st, r := explore(t, "abba", 1, 0, false, body, nil)
+	if st.Deadlocks == 0 || !has(r, "deadlock") {
 		t.Fatal("deadlock not found")
+	}
+	ordered := func(x *sched.Exec) {
+		var a, b vsync.Mutex
+		var wg vsync.WaitGroup
+		wg.Add(2)
+		sched.Go(func() { defer wg.Done(); a.Lock(); b.Lock(); b.Unlock(); a.Unlock() })
+		sched.Go(func() { defer wg.Done(); a.Lock(); b.Lock(); b.Unlock(); a.Unlock() })
+		wg.Wait()
+	}
+	if st, _ := explore(t, "abba-fixed", 3, 0, false, ordered, nil); st.Deadlocks != 0 {
+		t.Fatal("false deadlock")
 	}
 }
 
@@ -79,8 +172,292 @@ func TestChanRendezvous(t *testing.T) {
 		})
 		sched.ChR(done).Recv()
 	}
-	ex := explore(t, "rendezvous", 2, 0, body, func(x *sched.Exec) string { return fmt.Sprint(got) })
-	if len(ex.Stats.Outcomes) != 2 || ex.Stats.Deadlocks != 0 {
-		t.Fatalf("outcomes %v", ex.Stats.Outcomes)
+	st, _ := explore(t, "rendezvous", 2, 0, false, body, func(x *sched.Exec) string { return fmt.Sprint(got) })
+	if len(st.Outcomes) != 2 || st.Deadlocks != 0 {
+		t.Fatalf("outcomes %v", st.Outcomes)
+	}
+}
+
+// close-vs-send: a sender that checks a stopped flag and then sends, racing with a closer.
+func TestCloseVsSend(t *testing.T) {
+	body := func(x *sched.Exec) {
+		ch := make(chan int, 1)
+		var stopped vatomic.Bool
+		var wg vsync.WaitGroup
+		wg.Add(2)
+		sched.Go(func() {
+			defer wg.Done()
+			if !stopped.Load() {
+				sched.ChS(ch).Send(1)
+			}
+		})
+		sched.Go(func() {
+			defer wg.Done()
+			stopped.Store(true)
+			sched.Close(ch)
+		})
+		wg.Wait()
+	}
+	if st, _ := explore(t, "closesend", 0, 0, false, body, nil); st.Panics != 0 {
+		t.Fatal("panic with 0 preemptions?")
+	}
+	st, r := explore(t, "closesend", 1, 0, false, body, nil)
+	if st.Panics == 0 || !has(r, "panic|send on closed channel") {
+		t.Fatalf("send on closed channel not found: %v", r.Keys())
+	}
+}
+
+// timer-vs-size double export: a worker exports when the batch is full or when the
+// timer fires; the buggy version does not reset the batch before releasing the lock.
+func TestTimerVsSize(t *testing.T) {
+	mk := func(fixed bool) func(x *sched.Exec) {
+		return func(x *sched.Exec) {
+			var mu vsync.Mutex
+			var batch []int
+			exported := map[int]int{}
+			export := func() {
+				mu.Lock()
+				b := batch
+				if fixed {
+					batch = nil
+				}
+				mu.Unlock()
+				for _, v := range b {
+					exported[v]++
+				}
+				if !fixed {
+					mu.Lock()
+					batch = nil
+					mu.Unlock()
+				}
+			}
+			queue := make(chan int, 2)
+			stop := make(chan struct{})
+			var wg vsync.WaitGroup
+			wg.Add(1)
+			sched.Go(func() {
+				defer wg.Done()
+				tm := vtime.NewTimer(vtime.Second)
+				for {
+					s := sched.NewSelect(false)
+					sched.ChR(stop).RecvCase(s)
+					sched.ChR(tm.C).RecvCase(s)
+					c := sched.ChR(queue).RecvCase(s)
+					switch s.Wait() {
+					case 0:
+						return
+					case 1:
+						export()
+						tm.Reset(vtime.Second)
+					case 2:
+						mu.Lock()
+						batch = append(batch, c.V)
+						full := len(batch) >= 1
+						mu.Unlock()
+						if full {
+							sched.Go(export) // size-triggered export runs concurrently with the timer path
+						}
+					}
+				}
+			})
+			sched.ChS(queue).Send(7)
+			vtime.Sleep(1)
+			sched.Close(stop)
+			wg.Wait()
+			vtime.Sleep(1)
+			for v, n := range exported {
+				if n > 1 {
+					x.Fail("double-export", "item %d exported %d times", v, n)
+				}
+			}
+		}
+	}
+	if _, r := explore(t, "timersize", 1, 0, false, mk(false), nil); has(r, "double-export") {
+		t.Fatal("found without a timer deviation?")
+	}
+	if _, r := explore(t, "timersize", 1, 1, false, mk(false), nil); !has(r, "double-export") {
+		t.Fatal("timer-vs-size double export not found with P<=1,E<=1")
+	}
+	if _, r := explore(t, "timersize-fixed", 2, 2, false, mk(true), nil); has(r, "double-export") {
+		t.Fatal("false alarm on the corrected twin")
+	}
+}
+
+// ForceFlush-style select: result ready together with a cancelled context may return nil.
+func TestSelectChoiceIsExplored(t *testing.T) {
+	var got string
+	body := func(x *sched.Exec) {
+		ctx, cancel := vctx.WithCancel(context.Background())
+		res := make(chan error, 1)
+		sched.ChS(res).Send(fmt.Errorf("failed"))
+		cancel()
+		s := sched.NewSelect(false)
+		c := sched.ChR(res).RecvCase(s)
+		sched.ChR(ctx.Done()).RecvCase(s)
+		switch s.Wait() {
+		case 0:
+			got = "result:" + c.V.Error()
+		case 1:
+			got = "ctx"
+		}
+	}
+	st, _ := explore(t, "selectchoice", 0, 1, false, body, func(*sched.Exec) string { return got })
+	if len(st.Outcomes) != 2 {
+		t.Fatalf("both ready select cases must be explored, got %v", st.Outcomes)
+	}
+	st, _ = explore(t, "selectchoice", 0, 0, false, body, func(*sched.Exec) string { return got })
+	if len(st.Outcomes) != 1 {
+		t.Fatalf("E=0 must take only the first ready case, got %v", st.Outcomes)
+	}
+}
+
+// Deadline as an environment event.
+func TestDeadlineEvent(t *testing.T) {
+	var got string
+	body := func(x *sched.Exec) {
+		ctx, cancel := vctx.WithTimeout(context.Background(), vtime.Second)
+		defer cancel()
+		ch := make(chan int, 1)
+		sched.Go(func() { sched.ChS(ch).Send(1) })
+		s := sched.NewSelect(false)
+		sched.ChR(ch).RecvCase(s)
+		sched.ChR(ctx.Done()).RecvCase(s)
+		if s.Wait() == 0 {
+			got = "value"
+		} else {
+			got = "timeout:" + ctx.Err().Error()
+		}
+	}
+	st, _ := explore(t, "deadline", 1, 1, false, body, func(*sched.Exec) string { return got })
+	if len(st.Outcomes) != 2 {
+		t.Fatalf("outcomes %v", st.Outcomes)
+	}
+}
+
+// Idle system: the earliest timer fires for free; a wait nobody can end is a deadlock.
+func TestIdleTimerAndDeadlock(t *testing.T) {
+	body := func(x *sched.Exec) {
+		tm := vtime.NewTimer(vtime.Second)
+		sched.ChR(tm.C).Recv() // only the timer can end this wait: fires for free
+	}
+	if st, _ := explore(t, "idle-timer", 0, 0, false, body, nil); st.Deadlocks != 0 {
+		t.Fatal("idle timer must fire")
+	}
+	dead := func(x *sched.Exec) {
+		tk := vtime.NewTicker(vtime.Second)
+		sched.Go(func() {
+			for {
+				sched.ChR(tk.C).Recv()
+			}
+		})
+		ch := make(chan int)
+		sched.ChR(ch).Recv() // nobody sends; only a daemon ticks
+	}
+	if st, r := explore(t, "timers-only", 0, 0, false, dead, nil); st.Deadlocks == 0 || !has(r, "deadlock") {
+		t.Fatal("foreground wait behind a ticking daemon must be reported as deadlock")
+	}
+}
+
+// A busy-wait loop must terminate thanks to the fair-yield rule.
+func TestSpinLoopTerminates(t *testing.T) {
+	body := func(x *sched.Exec) {
+		var flag vatomic.Bool
+		sched.Go(func() { flag.Store(true) })
+		for !flag.Load() {
+			sched.SpinYield()
+		}
+	}
+	st, _ := explore(t, "spin", 2, 0, false, body, nil)
+	if st.Horizon != 0 || st.Deadlocks != 0 {
+		t.Fatalf("spin loop: horizon=%d deadlocks=%d", st.Horizon, st.Deadlocks)
+	}
+	// stutter detection: a daemon polling without SpinYield
+	poll := func(x *sched.Exec) {
+		var flag vatomic.Bool
+		done := make(chan struct{})
+		sched.Go(func() {
+			for !flag.Load() {
+			}
+			sched.Close(done)
+		})
+		flag.Store(true)
+		sched.ChR(done).Recv()
+	}
+	st, _ = explore(t, "stutter", 1, 0, false, poll, nil)
+	if st.Horizon != 0 || st.Deadlocks != 0 {
+		t.Fatalf("stutter loop: horizon=%d deadlocks=%d", st.Horizon, st.Deadlocks)
+	}
+}
+
+// Replay determinism: the same choice sequence gives the same trace.
+func TestReplayDeterminism(t *testing.T) {
+	body := func(x *sched.Exec) {
+		var mu vsync.Mutex
+		ch := make(chan int, 1)
+		m := map[string]int{"a": 1, "b": 2, "c": 3}
+		var wg vsync.WaitGroup
+		wg.Add(3)
+		for i := 0; i < 3; i++ {
+			sched.Go(func() {
+				defer wg.Done()
+				for _, k := range sched.SortedKeys(m) {
+					mu.Lock()
+					_ = k
+					mu.Unlock()
+				}
+				s := sched.NewSelect(true)
+				sched.ChS(ch).SendCase(s, i)
+				s.Wait()
+			})
+		}
+		wg.Wait()
+	}
+	x0 := sched.Run([]int{1, 0, 1, 1}, 5000, true, body)
+	for i := 0; i < 200; i++ {
+		x := sched.Run([]int{1, 0, 1, 1}, 5000, true, body)
+		if strings.Join(x.Trace, "\n") != strings.Join(x0.Trace, "\n") {
+			t.Fatalf("replay %d diverged:\n%v\nvs\n%v", i, x.Trace, x0.Trace)
+		}
+	}
+}
+
+// Pruning self-check: caching on and off must observe the same outcome sets.
+func TestPruningSelfCheck(t *testing.T) {
+	var log []int
+	body := func(x *sched.Exec) {
+		log = nil
+		var mu vsync.Mutex
+		var a vatomic.Int64
+		var wg vsync.WaitGroup
+		wg.Add(3)
+		for i := 0; i < 3; i++ {
+			sched.Go(func() {
+				defer wg.Done()
+				a.Add(1)
+				mu.Lock()
+				log = append(log, i)
+				mu.Unlock()
+				if sched.Choose(2, "flip") == 1 {
+					mu.Lock()
+					log = append(log, 10+i)
+					mu.Unlock()
+				}
+			})
+		}
+		wg.Wait()
+	}
+	out := func(*sched.Exec) string { return fmt.Sprint(log) }
+	s1, _ := explore(t, "prune", 2, 1, true, body, out)
+	s2, _ := explore(t, "prune", 2, 1, false, body, out)
+	if len(s1.Outcomes) != len(s2.Outcomes) {
+		t.Fatalf("outcome sets differ: %d without cache, %d with", len(s1.Outcomes), len(s2.Outcomes))
+	}
+	for k := range s1.Outcomes {
+		if s2.Outcomes[k] == 0 {
+			t.Fatalf("outcome %s lost by caching", k)
+		}
+	}
+	if s2.Execs >= s1.Execs {
+		t.Logf("note: caching did not reduce executions (%d vs %d)", s2.Execs, s1.Execs)
 	}
 }
